@@ -112,6 +112,42 @@ Definition check_shared_service (L : list (list nat)) (P : list (list (nat * nat
   | None => false
   end.
 
+(* ---- kind 6: the real Collector.Run over a SEQUENCE of configurations (reload events), one
+   generation of component instances per configuration.  Generation j occupies L[25j .. 25j+24] and
+   P[4j .. 4j+3] (same layout as kind 2; observed log / errors of that generation's instances; the
+   errors Run returned are recorded with the last generation that was built).  Generations the
+   model says are never built must have an empty observed log. *)
+Fixpoint split_gens (fuel : nat) (L : list (list nat)) (P : list (list (nat * nat)))
+  : list (list (list nat) * list (list (nat * nat))) :=
+  match fuel with
+  | 0 => []
+  | S fuel' => match L with
+               | [] => []
+               | _ => (firstn 25 L, firstn 4 P) :: split_gens fuel' (skipn 25 L) (skipn 4 P)
+               end
+  end.
+
+Definition gen_of (lp : list (list nat) * list (list (nat * nat))) : gen :=
+  {| gn_graph := graph_of (fst lp) (snd lp); gn_ext := extset_of (fst lp) (snd lp);
+     gn_ord := orders_of (fst lp); gn_faults := faults_of (fst lp) |}.
+
+Fixpoint check_gens (gs : list (list (list nat) * list (list (nat * nat)))) (ms : list (list ev * list err)) : bool :=
+  match gs, ms with
+  | [], [] => true
+  | [], _ :: _ => false
+  | lp :: gs', [] =>
+      match nthP 2 (snd lp), nthP 3 (snd lp) with [], [] => check_gens gs' [] | _, _ => false end
+  | lp :: gs', m :: ms' =>
+      orders_ok (gn_graph (gen_of lp)) (gn_ext (gen_of lp)) (gn_ord (gen_of lp)) &&
+      list_eqb pair_eqb (map ev_wire (fst m)) (nthP 2 (snd lp)) &&
+      list_eqb pair_eqb (map err_wire (snd m)) (nthP 3 (snd lp)) &&
+      check_gens gs' ms'
+  end.
+
+Definition check_reload (L : list (list nat)) (P : list (list (nat * nat))) : bool :=
+  let gs := split_gens (length L) L P in
+  check_gens gs (collector_run_reload (map gen_of gs)).
+
 Definition model_shared (L : list (list nat)) : list (nat * nat) * list nat :=
   let ops := map (fun b => Nat.eqb b 1) (nthL 0 L) in
   let fstart := Nat.eqb (nth 0 (nthL 1 L) 0) 1 in
@@ -125,6 +161,7 @@ Definition check_case (c : nat * (list (list nat) * list (list (nat * nat)))) : 
   | 4 => let '(evs, errs) := model_shared L in
          list_eqb pair_eqb evs (nthP 0 P) && list_eqb Nat.eqb errs (nthL 2 L)
   | 5 => check_shared_service L P
+  | 6 => check_reload L P
   | _ => match model_lifecycle kind L P with
          | Some (evs, errs) => list_eqb pair_eqb evs (nthP 2 P) && list_eqb pair_eqb errs (nthP 3 P)
          | None => false
@@ -137,5 +174,9 @@ Definition model_out (c : nat * (list (list nat) * list (list (nat * nat))))
   let '(kind, (L, P)) := c in
   match kind with
   | 4 => let '(evs, errs) := model_shared L in Some (evs, map (fun e => (9, e)) errs)
+  | 6 => let gs := split_gens (length L) L P in
+         (* replay aid: generation separators (99, j) between the per-generation logs *)
+         let ms := collector_run_reload (map gen_of gs) in
+         Some (flat_map (fun m => (99, 0) :: map ev_wire (fst m)) ms, flat_map (fun m => (99, 0) :: map err_wire (snd m)) ms)
   | _ => model_lifecycle kind L P
   end.
